@@ -30,6 +30,15 @@ inductive LoadKind
   | zeroMeansDefault         -- if jcfg.F == 0 { cfg.G = DefaultX } else { cfg.G = jcfg.F }
   | pointerOptional          -- if jcfg.F != nil { cfg.G = *jcfg.F }
   | mergo                    -- option struct merged with mergo.WithOverride: zero never overrides
+  | codecAlways              -- x, err := parse(jcfg.F); if err != nil { return err }; cfg.G = x
+  | codecNonEmpty            -- if jcfg.F != "" { …the same… }
+  | codecListAlways          -- l := nil; for _, a := range jcfg.F { x, err := parse(a); if err…; l = append(l, x) }; cfg.G = l
+  | codecListNonEmpty        -- if as := jcfg.F; len(as) > 0 { cfg.G = make(…); for … cfg.G = append(cfg.G, x) }
+  | codecListLenient         -- cfg.G = api.StringsToPeers(jcfg.F): undecodable entries are skipped
+  | peerListStar             -- crdt trusted_peers: "*" ⇒ TrustAll, list emptied, loop left
+  | tlsPath                  -- restapi tlsOptions: pair of paths kept as written, resolved against BaseDir once, key pair loaded
+  | emptyZeroParseDurations  -- if jcfg.F == "" { jcfg.F = "0s" } then a checked ParseDurations entry (cors_max_age)
+  | copyNonEmpty             -- if x := jcfg.F; len(x) > 0 { cfg.G = x }
   | custom
   | none
   deriving DecidableEq, Repr
@@ -40,8 +49,20 @@ inductive SaveKind
   | durString         -- jcfg.F = cfg.G.String()
   | omitIfDefault     -- if cfg.G != DefaultX { jcfg.F = cfg.G }            (F is omitempty)
   | omitIfDefaultDur  -- if cfg.G != DefaultX { jcfg.F = cfg.G.String() }
+  | codecPrint              -- jcfg.F = print(cfg.G)          (String(), Pretty(), EncodeProtectorKey, base64 of Bytes())
+  | codecPrintNonZero       -- if cfg.G != <unset> { jcfg.F = print(cfg.G) }
+  | codecListPrint          -- for _, a := range cfg.G { l = append(l, print(a)) }; jcfg.F = l   (also api.PeersToStrings)
+  | codecListPrintNonEmpty  -- … if len(l) > 0 { jcfg.F = l }
+  | peerListStarPrint       -- if cfg.TrustAll { jcfg.F = ["*"] } else { jcfg.F = PeersToStrings(cfg.G) }
+  | durSeconds              -- jcfg.F = int(cfg.G / time.Second): LOSSY (sub-second part dropped); not in the unchanged tree
   | custom
   | none
+  deriving DecidableEq, Repr
+
+/-- the parse/print pair a codec kind goes through.  `maddr`, `peerID`, `hexSecret`, `base64Key` are library
+functions (trusted: print is injective and parse is its left inverse, like `time.ParseDuration`/`String`);
+`enum` is a closed table read from the sources, for which the left inverse is *proved* over the table. -/
+inductive CodecName | none | maddr | peerID | hexSecret | base64Key | enum
   deriving DecidableEq, Repr
 
 /-- constants as far as they are syntactically evident, and the value tokens of case lines -/
@@ -68,6 +89,8 @@ structure Field where
   dflt : Const          -- value Default() gives the Config field (unknown if not evident)
   omitC : Const         -- the constant an omitIfDefault save compares with
   rej : List (Op × Const)  -- Validate() rejects when `value op const` (simple, unguarded conjuncts only)
+  codec : CodecName := .none
+  hiddenNested : Bool := false  -- a hidden:"true" tag below the top level of the JSON struct (DisplayJSON does not honour it)
   deriving Repr
 
 structure Section where
@@ -88,6 +111,7 @@ def loadScalar [DecidableEq α] (k : LoadKind) (zero cur dflt j : α) : α :=
   | .direct => j
   | .setIfNotDefault => if j = zero then cur else j
   | .mergo => if j = zero then cur else j
+  | .copyNonEmpty => if j = zero then cur else j
   | .zeroMeansDefault => if j = zero then dflt else j
   | .none => cur
   | _ => j
@@ -120,9 +144,11 @@ inductive DurJ | empty | bad | ok (ns : Int)
 def loadDur (k : LoadKind) (cur : Int) : DurJ → Option Int
   | .empty => match k with
       | .parseOrZeroDirect => some 0
+      | .emptyZeroParseDurations => some 0
       | _ => some cur
   | .bad => match k with
       | .parseDurations => Option.none
+      | .emptyZeroParseDurations => Option.none
       | .parseOrZeroDirect => some 0
       | _ => some cur
   | .ok d => match k with
@@ -145,6 +171,110 @@ def parseDurations : List (DurJ × Int) → List Int × Bool
     | .empty => let r := parseDurations rest; (cur :: r.1, r.2)
     | .ok d => let r := parseDurations rest; (d :: r.1, r.2)
     | .bad => (cur :: rest.map (·.2), true)
+
+
+/-! ## lossy integer-seconds save (`int(cfg.G / time.Second)`, what `corsOptions` does when it *uses*
+`cors_max_age`; a save written like that would drop the sub-second part) -/
+
+def nsPerSec : Int := 1000000000
+
+/-- Go integer division truncates toward zero -/
+def saveSeconds (v : Int) : Int := v.tdiv nsPerSec
+def loadSeconds (n : Int) : Int := n * nsPerSec
+
+/-! ## settings that travel through a parser and a printer (multiaddresses, peer IDs, keys, the secret, enums)
+
+`J` is the JSON-level value (a string), `C` the Config-level value.  `parse j = none`: the library reports an
+error and `LoadJSON` returns it. -/
+
+structure Codec (J C : Type) where
+  parse : J → Option C
+  print : C → J
+
+/-- the fact the round trip needs: what was parsed prints to something that parses to the same value -/
+def Codec.RoundTrips (cd : Codec J C) : Prop := ∀ j c, cd.parse j = some c → cd.parse (cd.print c) = some c
+
+/-- the stronger library fact (trusted for the library codecs): parse is a left inverse of print -/
+def Codec.LeftInv (cd : Codec J C) : Prop := ∀ c, cd.parse (cd.print c) = some c
+
+/-- one value.  `empty` is the JSON zero value (""), `unset` the Config value meaning "not configured"
+(`nil`, `""`).  Outer `none` = refused. -/
+def loadCodec [DecidableEq J] (k : LoadKind) (cd : Codec J C) (empty : J) (cur : C) (j : J) : Option C :=
+  match k with
+  | .codecAlways => cd.parse j
+  | .codecNonEmpty => if j = empty then some cur else cd.parse j
+  | _ => some cur
+
+def saveCodec [DecidableEq C] (k : SaveKind) (cd : Codec J C) (empty : J) (unset : C) (v : C) : J :=
+  match k with
+  | .codecPrint => cd.print v
+  | .codecPrintNonZero => if v = unset then empty else cd.print v
+  | _ => empty
+
+/-- a list of values, all-or-nothing (`for … { x, err := parse(a); if err != nil { return err } … }`) -/
+def parseList (cd : Codec J C) : List J → Option (List C)
+  | [] => some []
+  | a :: rest => match cd.parse a with
+    | Option.none => Option.none
+    | some c => match parseList cd rest with
+      | Option.none => Option.none
+      | some l => some (c :: l)
+
+def loadCodecList (k : LoadKind) (cd : Codec J C) (cur : List C) (j : List J) : Option (List C) :=
+  match k with
+  | .codecListAlways => parseList cd j
+  | .codecListNonEmpty => if j.isEmpty then some cur else parseList cd j
+  | .codecListLenient => some (j.filterMap cd.parse)
+  | _ => some cur
+
+/-- an `omitempty` empty list and an absent key are the same JSON-level value `[]` -/
+def saveCodecList (_k : SaveKind) (cd : Codec J C) (v : List C) : List J := v.map cd.print
+
+/-- crdt `trusted_peers`: entries are decoded in order; `"*"` sets TrustAll, empties the list and leaves the
+loop (entries after it are not looked at); an undecodable entry before it is an error. -/
+def loadStar [DecidableEq J] (cd : Codec J C) (star : J) : List J → Option (Bool × List C)
+  | [] => some (false, [])
+  | p :: rest =>
+    if p = star then some (true, []) else
+    match cd.parse p with
+    | Option.none => Option.none
+    | some c => match loadStar cd star rest with
+      | Option.none => Option.none
+      | some (true, _) => some (true, [])
+      | some (false, l) => some (false, c :: l)
+
+def saveStar (cd : Codec J C) (star : J) (r : Bool × List C) : List J :=
+  if r.1 then [star] else r.2.map cd.print
+
+/-- a closed enumeration read from a `switch` (load) and a `String()` method (save) -/
+def lookup (t : List (String × String)) (k : String) : Option String := (t.find? (·.1 == k)).map (·.2)
+
+def enumCodec (loadT saveT : List (String × String)) : Codec String String :=
+  { parse := lookup loadT, print := fun c => (lookup saveT c).getD "" }
+
+/-! ## restapi `ssl_cert_file` / `ssl_key_file` (tlsOptions)
+
+Both empty: nothing happens.  Otherwise the two strings are recorded *as written* (`pathSSLCertFile`,
+`pathSSLKeyFile`, which `toJSONConfig` writes back), each is resolved against the base directory once
+(`filepath.IsAbs` / `filepath.Join`), and the pair is loaded (`newTLSConfig`); a failure is returned.
+`fs` stands for the file system: does this resolved pair load? -/
+structure TLSState where
+  cert : String
+  key : String
+  loaded : Bool
+  deriving DecidableEq, Repr
+
+def resolvePath (isAbs : String → Bool) (join : String → String → String) (base p : String) : String :=
+  if isAbs p then p else join base p
+
+def loadTLS (isAbs : String → Bool) (join : String → String → String) (fs : String → String → Bool)
+    (base : String) (cur : TLSState) (cert key : String) : Option TLSState :=
+  if cert ++ key = "" then some cur else
+  if fs (resolvePath isAbs join base cert) (resolvePath isAbs join base key) then
+    some { cert := cert, key := key, loaded := true }
+  else Option.none
+
+def saveTLS (s : TLSState) : String × String := (s.cert, s.key)
 
 /-! ## Validate conjuncts -/
 
@@ -178,11 +308,23 @@ def lossless : LoadKind → SaveKind → Bool
   | .parseDurations, .omitIfDefaultDur => true
   | .parseOrZeroSIND, .durString => true
   | .parseOrZeroDirect, .durString => true
+  | .emptyZeroParseDurations, .durString => true
+  | .copyNonEmpty, .direct => true
+  | .codecAlways, .codecPrint => true
+  | .codecNonEmpty, .codecPrint => true
+  | .codecNonEmpty, .codecPrintNonZero => true
+  | .codecListAlways, .codecListPrint => true
+  | .codecListNonEmpty, .codecListPrint => true
+  | .codecListNonEmpty, .codecListPrintNonEmpty => true
+  | .codecListLenient, .codecListPrint => true
+  | .peerListStar, .peerListStarPrint => true
+  | .tlsPath, .direct => true
   | _, _ => false
 
 /-- load kinds that cannot write the zero value over a non-zero current value -/
 def zeroBlind : LoadKind → Bool
   | .setIfNotDefault | .mergo | .parseOrZeroSIND | .zeroMeansDefault => true
+  | .copyNonEmpty | .codecNonEmpty | .codecListNonEmpty => true
   | _ => false
 
 /-! ## prediction for one case (driver) -/
@@ -256,10 +398,17 @@ def predictScalar (f : Field) (cur val : Const) : Pred :=
     if f.omitEmpty && s == f.ty.zero then Pred.accept v .absent else Pred.accept v s
   | _ => if f.omitEmpty && v == f.ty.zero then Pred.accept v .absent else Pred.accept v v
 
+/-- kinds whose values are not plain scalars of the case-line token language -/
+def LoadKind.isCodec : LoadKind → Bool
+  | .codecAlways | .codecNonEmpty | .codecListAlways | .codecListNonEmpty | .codecListLenient | .peerListStar
+  | .tlsPath | .copyNonEmpty => true
+  | _ => false
+
 /-- what a load of the default JSON with this one field set to `val` (`cur` = the Config value before the
 apply), followed by `ToJSON`, shows for the field — as far as the row determines it. -/
 def predict (f : Field) (cur val : Const) : Pred :=
   if !(lossless f.load f.save) then Pred.unknown else
+  if f.load.isCodec then Pred.unknown else
   if cur == Const.unknown then Pred.unknown else
   match f.ty with
   | .dur => predictDur f cur val
